@@ -14,6 +14,8 @@ from . import unitspec
 
 
 def run(ctx):
+    from .configtime import no_identity_test_against_literals as _no_is_literal
+    _no_is_literal(ctx, 'C06.R1', classes=('Unit', 'Substance'))
     from .configtime import config_file_precedence as _cfgfile
     _cfgfile(ctx, 'C06.R4')
     from .configtime import late_binding_closures as _late
